@@ -6,7 +6,7 @@ def _load(name):
     sp = importlib.util.spec_from_file_location(name, os.path.join(os.path.dirname(__file__), name + '.py'))
     m = importlib.util.module_from_spec(sp); sp.loader.exec_module(m); return m
 _c08, _c12 = _load('C08'), _load('C12')
-UNITS = [dict(u) for u in _c08.UNITS if u['name'] == 'l2cap_output']
+UNITS = [dict(u, defines=list(u.get('defines', [])) + ['C10_CLAUSES']) for u in _c08.UNITS if u['name'] == 'l2cap_output']   # the clause set of this property (as for llc.py)
 # repeated requests before transmission: the queue is a set (add returns false and changes nothing if the entry is pending) - contracts in C12.py
 UNITS += [dict(u, enforce=['add', 'at']) for u in _c12.UNITS if u['name'] == 'at_add_remove']
 UNITS += [dict(u, enforce=['queue_notification', 'queue_indication']) for u in _c12.UNITS if u['name'] == 'impl1']
